@@ -528,7 +528,7 @@ def session_run(ctx: Ctx, mode, dy, ny, calls, kind="str"):
             "size": 0, "exact": None, "as": kind}
     try:
         run = c01h.Run(case)
-    except c01h.Unserialisable:
+    except (c01h.Unserialisable, c01h.InfiniteTolerance):
         return None
     if run.die is None:
         ctx.count("die:rejected-by-constructor:" + str(run.impl))
